@@ -140,8 +140,7 @@ func runC22(c *engine.Ctx) {
 		c.AnchorMissing(r1, "calls through storage function types / LinkSystem.Load / Progress.Walk* in module code")
 		return
 	}
-	type pair struct{ root, fn *ssa.Function }
-	seen := map[pair]bool{}
+	seenKey := map[string]bool{}
 	recRoots := map[*ssa.Function]*ssa.Function{}
 	for _, s := range sinks {
 		c.Analysed(engine.FuncName(s.fn))
@@ -155,12 +154,13 @@ func runC22(c *engine.Ctx) {
 			continue
 		}
 		for _, r := range roots {
-			k := pair{r, s.fn}
-			if seen[k] {
+			// keyed by goroutine, package and kind of user function (not by the function the call happens to sit
+			// in: moving the call into a helper of the same package is the same finding)
+			key := fmt.Sprintf("%s|%s|%s", engine.FuncName(r), strings.TrimPrefix(strings.TrimPrefix(engine.FuncPkgPath(s.fn), engine.Module), "/"), s.what)
+			if seenKey[key] {
 				continue
 			}
-			seen[k] = true
-			key := fmt.Sprintf("%s|%s", engine.FuncName(r), engine.FuncName(s.fn))
+			seenKey[key] = true
 			fn, ok := recoveringDefer(r)
 			if ok {
 				recRoots[r] = fn
